@@ -5,6 +5,7 @@ import (
 	"bytes"
 	"crypto/sha256"
 	"crypto/x509"
+	"encoding/binary"
 	"fmt"
 	"io"
 	"strings"
@@ -231,7 +232,7 @@ func rewriteDigestHow(img []byte, md, unsignedMD bool) ([]byte, error) {
 }
 
 var classes = []string{"none", "flip_covered", "flip_covered", "flip_any", "transplant", "flip+digest_rewrite", "flip+digest_rewrite", "flip+digest_rewrite+md", "flip+digest_rewrite+unsigned_md",
-	"transplant+digest_rewrite", "append_behind_table", "blob_mutation", "blob_mutation", "forged_resign", "foreign_signer_splice", "valid_foreign_entry_then_transplant", "data_signature_grafted"}
+	"transplant+digest_rewrite", "append_behind_table", "table_grown_over_junk+tail_rewritten", "blob_mutation", "blob_mutation", "forged_resign", "foreign_signer_splice", "valid_foreign_entry_then_transplant", "data_signature_grafted"}
 
 func genCase(t *rapid.T) Case {
 	img, signer, base := signedBase(t)
@@ -306,6 +307,20 @@ func genCase(t *rapid.T) Case {
 		}
 		out = append(append([]byte{}, img...), tail...)
 		c.Note += fmt.Sprintf("%d bytes appended behind the certificate table; ", k)
+	case "table_grown_over_junk+tail_rewritten":
+		// the directory entry (which no digest covers) is made to span a few more bytes that are added behind the table,
+		// and one of the last covered bytes in front of the table is changed: sizes stay consistent, the content does not
+		l, perr := pehash.Parse(img)
+		if perr != nil || l.CertVA == 0 || int(l.CertVA)+int(l.CertSize) != len(img) || int(l.CertVA) < int(l.SizeOfHeaders)+8 {
+			err = fmt.Errorf("base without a table that ends the file")
+			break
+		}
+		j := rapid.IntRange(1, 8).Draw(t, "junk")
+		out = append(append([]byte{}, img...), gen.FillBytes(t, j)...)
+		binary.LittleEndian.PutUint32(out[l.DD4Off+4:], l.CertSize+uint32(j))
+		p := int(l.CertVA) - 1 - rapid.IntRange(0, 7).Draw(t, "back")
+		out[p] ^= byte(1 << uint(rapid.IntRange(0, 7).Draw(t, "bit")))
+		c.Note += fmt.Sprintf("%d bytes added behind the table and taken into the directory entry, byte %d (%d in front of the table) changed; ", j, p, int(l.CertVA)-p)
 	case "flip+digest_rewrite":
 		out, err = rewriteDigest(flip(img, true), false)
 	case "flip+digest_rewrite+md":
